@@ -34,10 +34,10 @@ claimed = {
   technique=SIM + ": replicated state machine replicas on skewed fake clocks with snapshot/restore restarts, canonical-form comparison, invariant checker",
   ref="3 C06"),
  "C07": dict(
-  text="State-machine level (real storeFSM): snapshots taken at seeded log positions and persisted only after 0-12 further commands (the interleaving raft's snapshot goroutine produces) must restore to exactly the state at the snapshot position (full fidelity incl. deleted groups), and a node restarted from one must converge after replaying the suffix; request bodies of every command type with absent / foreign / empty / garbage / truncated / over-long extensions: whatever the execute endpoint's validation accepts must apply without panic.",
-  note="hashicorp/raft, the bbolt log, the HTTP endpoints and the meta client are NOT run by this check: leader failover, partitions and real node restarts are not exercised; raft is trusted to deliver one committed log to every node and to call Snapshot/Persist/Restore as documented",
-  technique=SIM + ": plan-decided interleaving of FSM snapshot persistence with further applies, canonical-form comparison, hostile request bodies against validateCommand+Apply",
-  ref="3 C07 (single-thread mode)"),
+  text="Three modes. snapshot: a generated command log with 1-4 snapshots taken at seeded positions and persisted 0-12 commands later (the interleaving raft produces); the restored image must equal the state at the snapshot position in full and a node restarted from it converges after replaying the suffix. accept: request bodies of every command type with absent/foreign/empty/garbage/truncated payloads - whatever the execute endpoint's validation accepts must apply on the state machine without panic. cluster: three real meta nodes (meta.Service with its HTTP handler, store, hashicorp/raft with bolt stores and file snapshots, the raft layer behind tcp.Mux) joined through the real /join endpoint on the simulated network and clock; a real meta.Client executes create/drop database, create retention policy, create user while nodes - any, or the current leader - are stopped, restarted, made to refuse incoming connections and healed; after the last fault and 45 simulated seconds every acknowledged change must be present on every node (an acknowledged drop stays dropped), all nodes hold identical metadata, and a new command commits.",
+  note="cluster mode is one run in six; stops are clean closes (bolt's crash consistency is not explored); isolation is asymmetric (incoming refused) because the dial seam does not know the caller; raft's snapshot threshold is not reached in cluster runs (the snapshot mode covers persist/restore of the state machine); no data nodes take part",
+  technique=SIM + ": state-machine replay with seeded snapshot/persist interleavings; in-process raft cluster of real meta services on a simulated network and clock with node stop/restart/isolation faults; acknowledged-changes model and replica equality",
+  ref="3 C07; 7.2"),
  "C08": dict(
   text="1-3 real PointsWriters map batches behind lagging copies of one real meta.Data while a seeded metadata history runs (alter shard duration, pre-create, truncate, delete groups, add/remove nodes, clock advance); timestamps at group start/end/truncation +-1ns, now-retention, extremes; conservation, dropped iff older than retention, group = what the metadata designates, shard = fnv64a(canonical key) mod n.",
   note="meta client is a stub restating the real client's cache-then-create logic over real meta.Data (raft replaced by a serialised apply); a group is accepted if any metadata version the node held during the call designates it",
